@@ -6,5 +6,6 @@ CONSTANTS
   Final = "final"
   ZeroFill = TRUE
   OnWriteError = "rename"
-INVARIANTS NoStartupError AtomicRecover SyncedBeforeRename FinalOnlyByRename
+  CrossDevice = FALSE
+INVARIANTS NoStartupError AtomicRecover SyncedBeforeRename FinalOnlyByRename SameDirRename Delivered
 CHECK_DEADLOCK FALSE
